@@ -300,7 +300,161 @@ def one_case(ctx, r, ent, n, d, dtype, seed, forms=None):
                     ctx.trace_ok()
 
 
+# ------------------------------------------------------------------------------------------------ life-cycle sequences
+
+LIFE_MODELS = ("GaussianNB", "KMeans", "StandardScaler", "LinearRegression", "LogisticRegression", "PCA",
+               "RandomForestClassifier", "DecisionTreeClassifier")
+
+
+def life_kwargs(cls, d, seed, acc, r):
+    kw = dict(epsilon=2.0, random_state=seed, accountant=acc)
+    if cls in ("GaussianNB", "KMeans", "StandardScaler", "RandomForestClassifier", "DecisionTreeClassifier"):
+        kw["bounds"] = (0.0, 1.0)
+    if cls == "KMeans":
+        kw["n_clusters"] = 2
+    if cls in ("RandomForestClassifier", "DecisionTreeClassifier"):
+        kw["classes"] = [0, 1, 2]
+    if cls == "RandomForestClassifier":
+        kw["n_estimators"] = 3
+    if cls == "LinearRegression":
+        kw.update(bounds_X=(0.0, 1.0), bounds_y=(-1.0, 2.0), fit_intercept=r.chance(0.5))
+    if cls == "LogisticRegression":
+        kw["data_norm"] = 1.5
+    if cls == "PCA":
+        kw.update(data_norm=3.0, n_components=min(2, d), centered=r.chance(0.3))
+        if not kw["centered"]:
+            kw["bounds"] = (0.0, 1.0)
+    return kw
+
+
+def lifecycle_case(ctx, r, cls, dtype, seed):
+    """One estimator OBJECT used through a random sequence of calls - successful ones, refused ones (budget exhausted,
+    wrong number of features) and parameter changes.  After every step every array the caller ever handed over must be
+    byte-identical to its snapshot (a refused call that leaves the estimator in a state in which LATER calls write into
+    the caller's arrays is found here), and on that same object fit_transform(X) must equal fit(X).transform(X)."""
+    M = dp.models
+    fn = getattr(M, cls)
+    n, d = r.randint(12, 24), r.randint(2, 4)
+    supervised = cls in ("GaussianNB", "LogisticRegression", "RandomForestClassifier", "DecisionTreeClassifier", "LinearRegression")
+
+    def fresh_X(k=None, dd=None):
+        A = make_data(r, k or n, dd or d, dtype)
+        return np.array(A, order=r.choice(["C", "F"]), copy=True)
+
+    def fresh_y(k=None):
+        k = k or n
+        if cls == "LinearRegression":
+            return np.array([r.uniform(-1, 2) for _ in range(k)])
+        return np.array([i % 3 for i in range(k)], dtype=np.int64)
+
+    acc = dp.BudgetAccountant(epsilon=2.0 * r.choice([1, 2, 3]) + 0.5)     # room for 1-3 fits, then refusals
+    est = fn(**life_kwargs(cls, d, seed, acc, r))
+    owned, before, steps = {}, {}, []
+
+    def own(tag, a):
+        owned[tag] = a
+        before[tag] = snap(a)
+        return a
+
+    menu = ["fit", "fit", "use", "fit-refused-budget", "fit-wrong-features", "set_params", "use"]
+    if hasattr(est, "fit_transform") and cls in ("PCA", "StandardScaler"):
+        menu += ["fit_transform", "fit_transform", "fit_transform-refused-budget"]
+    if hasattr(est, "partial_fit"):
+        menu += ["partial_fit"]
+    data = {"kind": "lifecycle", "model": cls, "dtype": dtype, "seed": seed, "fork": None}
+    for i in range(r.randint(3, 7)):
+        st = r.choice(menu)
+        steps.append(st)
+        try:
+            with warnings.catch_warnings():
+                warnings.simplefilter("ignore")
+                if st in ("fit", "fit_transform", "partial_fit"):
+                    X = own(f"X{i}", fresh_X())
+                    y = own(f"y{i}", fresh_y()) if supervised else None
+                    if st == "fit":
+                        est.fit(X, y) if supervised else est.fit(X)
+                    elif st == "fit_transform":
+                        est.fit_transform(X)
+                    elif supervised:
+                        est.partial_fit(X, y, classes=[0, 1, 2])
+                    else:
+                        est.partial_fit(X)
+                elif st in ("fit-refused-budget", "fit_transform-refused-budget"):
+                    spare = acc.remaining()[0]
+                    if spare > 0 and not np.isinf(spare):
+                        acc.spend(spare * 0.999, 0)                  # what is left cannot pay for a fit
+                    X = own(f"X{i}", fresh_X())
+                    y = own(f"y{i}", fresh_y()) if supervised else None
+                    if st == "fit-refused-budget":
+                        est.fit(X, y) if supervised else est.fit(X)
+                    else:
+                        est.fit_transform(X)
+                elif st == "fit-wrong-features":
+                    X = own(f"X{i}", fresh_X(dd=d + 1))
+                    y = own(f"y{i}", fresh_y()) if supervised else None
+                    if hasattr(est, "partial_fit") and r.chance(0.5):
+                        est.partial_fit(X, y, classes=[0, 1, 2]) if supervised else est.partial_fit(X)
+                    else:
+                        est.transform(X) if hasattr(est, "transform") else est.predict(X)
+                elif st == "set_params":
+                    est.set_params(epsilon=r.choice([0.4, 1.0, 2.0]))
+                    if r.chance(0.5):
+                        acc = dp.BudgetAccountant()
+                        est.set_params(accountant=acc)
+                else:
+                    X = own(f"X{i}", fresh_X())
+                    for meth in ("transform", "predict", "predict_proba", "score_samples", "inverse_transform"):
+                        if hasattr(est, meth) and meth != "inverse_transform":
+                            try:
+                                getattr(est, meth)(X)
+                            except Exception:  # noqa - not fitted yet / refused: fine
+                                pass
+        except Exception as e:  # noqa - refusals are part of the sequence
+            ctx.count("lifecycle_raise:" + type(e).__name__)
+        for tag, a in owned.items():
+            if snap(a) != before[tag]:
+                ctx.violation(f"C20:models.{cls}:lifecycle:mutates",
+                              f"models.{cls} (dtype {dtype}): after the call sequence {steps} on one estimator object the "
+                              f"caller's array `{tag}` (handed over at step {tag[1:]}) was modified by step {i} `{st}`",
+                              dict(data, steps=list(steps)))
+                before[tag] = snap(a)
+    ctx.case(("lifecycle", cls, dtype, tuple(steps)))
+    # same object, integer seed: fit_transform(X) == fit(X).transform(X), in either order
+    if cls in ("PCA", "StandardScaler"):
+        est2 = fn(**life_kwargs(cls, d, seed, dp.BudgetAccountant(), r))
+        X = fresh_X()
+        with warnings.catch_warnings():
+            warnings.simplefilter("ignore")
+            if r.chance(0.5):
+                a = est2.fit_transform(X)
+                b_ = est2.fit(X).transform(X)
+                order = "fit_transform first"
+            else:
+                b_ = est2.fit(X).transform(X)
+                a = est2.fit_transform(X)
+                order = "fit().transform() first"
+        if not (a.shape == b_.shape and np.array_equal(a, b_, equal_nan=True)):
+            ctx.violation(f"C20:models.{cls}:fit_transform-differs:same-object",
+                          f"models.{cls}(random_state={seed}): on ONE estimator object fit_transform(X) != "
+                          f"fit(X).transform(X) ({order}; max abs diff "
+                          f"{float(np.max(np.abs(a - b_))) if a.shape == b_.shape else 'shape'})",
+                          dict(data, steps=["same-object"]))
+        else:
+            ctx.trace_ok()
+
+
+def lifecycle(ctx):
+    r = ctx.fork("c20-lifecycle")
+    for cls in LIFE_MODELS:
+        for rep in range(ctx.budget(4, 40)):
+            for dtype in ("float64", "float32", "int64"):
+                seed = r.randint(0, 10 ** 6)
+                f = (cls, rep, dtype)
+                lifecycle_case(ctx, r.fork(f), cls, dtype, seed)
+
+
 def check(ctx):
+    lifecycle(ctx)
     r = ctx.fork("c20")
     ents = entries()
     reps = ctx.budget(1, 6)
@@ -317,6 +471,10 @@ def check(ctx):
 
 def replay(ctx, data):
     d = data["data"]
+    if d.get("kind") == "lifecycle":
+        n0 = len(ctx.violations)
+        lifecycle(ctx)
+        return len(ctx.violations) > n0
     from ..gen import SplitMix64
     ents = {e[0]: e for e in entries()}
     ent = ents[d["entry"]]
